@@ -199,6 +199,21 @@ func (h *H) reuseCorpus() {
 	ja[27] = 0
 	ja[12] = 1
 	h.reuseOne(find(ts, "JoinAcceptPayload"), ja, make([]byte, 12))
+	// the boundary of fix e2c2b92 (C06-2): six masks, then RFU bytes 12..14 that are not a seventh mask;
+	// receivers that held six masks (or, before the fix, seven) are decoded into again
+	six := []byte{1, 0, 2, 0, 3, 0, 4, 0, 5, 0, 6, 0}
+	rfu := append(append([]byte{}, six...), 0xaa, 0xbb, 0xcc)
+	h.reuseOne(find(ts, "CFListChannelMaskPayload"), rfu, six)
+	h.reuseOne(find(ts, "CFListChannelMaskPayload"), rfu[:14], rfu)
+	h.reuseOne(find(ts, "CFListChannelMaskPayload"), six, rfu[:13])
+	h.reuseOne(find(ts, "CFListChannelMaskPayload"), rfu, []byte{9, 0, 0, 0, 0, 0, 0, 0, 0, 0, 0, 0, 0xff, 0xff, 0xff})
+	h.reuseOne(find(ts, "CFList"), append(append([]byte{}, rfu...), 1), append(append([]byte{}, six...), 0x11, 0x22, 0x33, 1))
+	h.reuseOne(find(ts, "CFList"), append(append([]byte{}, rfu...), 1), append(append([]byte{}, rfu...), 0))
+	jaRFU := append(make([]byte, 12), append(append([]byte{}, rfu...), 1)...)
+	jaSix := append(make([]byte, 12), append(append([]byte{}, six...), 0, 0, 0, 1)...)
+	h.reuseOne(find(ts, "JoinAcceptPayload"), jaRFU, jaSix)
+	h.reuseOne(find(ts, "JoinAcceptPayload"), jaSix, jaRFU)
+	h.reuseOne(find(ts, "JoinAcceptPayload"), jaRFU, make([]byte, 12))
 	h.reuseOne(find(ts, "FHDR"), []byte{1, 2, 3, 4, 2, 0, 0, 0xaa, 0xbb}, []byte{1, 2, 3, 4, 0, 0, 0})
 	h.reuseOne(find(ts, "MACPayload"), []byte{1, 2, 3, 4, 2, 0, 0, 0xaa, 0xbb, 7, 0xcc}, []byte{1, 2, 3, 4, 0, 0, 0})
 	h.reuseOne(find(ts, "MACCommand:up=true"), []byte{3, 7}, []byte{2})
@@ -238,6 +253,13 @@ func (h *H) reuse(mult int) {
 			n = 10 * mult
 			gen = func() []byte {
 				b := r.Bytes(r.Intn(16))
+				if r.Intn(3) == 0 { // around the six-mask boundary: 12..15 bytes, non-zero RFU bytes behind the masks
+					b = r.Bytes(12 + r.Intn(4))
+					for i := 12; i < len(b); i++ {
+						b[i] |= 1
+					}
+					return b
+				}
 				if r.Bool() {
 					for i := range b {
 						if r.Bool() {
@@ -249,7 +271,14 @@ func (h *H) reuse(mult int) {
 			}
 		case t.name == "CFList":
 			n = 8 * mult
-			gen = func() []byte { b := r.Bytes(16); b[15] = byte(r.Intn(3)); return b }
+			gen = func() []byte {
+				b := r.Bytes(16)
+				b[15] = byte(r.Intn(3))
+				if r.Bool() { // non-zero RFU bytes 12..14 behind six channel-masks
+					b[12], b[13], b[14] = b[12]|1, b[13]|1, b[14]|1
+				}
+				return b
+			}
 		case t.name == "JoinAcceptPayload":
 			n = 12 * mult
 			gen = func() []byte {
@@ -258,6 +287,9 @@ func (h *H) reuse(mult int) {
 				}
 				b := r.Bytes(28)
 				b[27] = byte(r.Intn(2))
+				if r.Bool() { // CFList payload bytes 12..14 non-zero
+					b[24], b[25], b[26] = b[24]|1, b[25]|1, b[26]|1
+				}
 				return b
 			}
 		case t.name == "FHDR":
